@@ -13,8 +13,14 @@ import (
 	"package-operator.run/verifharness/kubesim"
 )
 
-// DepName is the name of the single ObjectDeployment scenarios use.
-const DepName = "dep"
+// DepName is the name of the ObjectDeployment the deployment monitors (C07, C08, C09) look at: "dep" in the scenarios that
+// create an ObjectDeployment directly; tests that run those monitors over a Package's deployment set it to the package name.
+var DepName = "dep"
+
+// isDepSet: PKO labels every ObjectSet it creates for a deployment with the deployment's name.
+func isDepSet(o map[string]any) bool {
+	return kubesim.LabelsOf(o)["package-operator.run/object-deployment"] == DepName
+}
 
 func depKey() kubesim.Key {
 	return kubesim.Key{Group: engine.PKOGroup, Kind: "ObjectDeployment", Namespace: engine.NSMain, Name: DepName}
@@ -105,7 +111,7 @@ func (r *Runner) DeploymentSets() []map[string]any {
 	var out []map[string]any
 	for _, k := range r.W.ListKeys(engine.PKOGroup, "ObjectSet") {
 		o := r.W.Store.PeekNoCopy(k)
-		if kubesim.LabelsOf(o)["dep"] == DepName {
+		if isDepSet(o) {
 			out = append(out, o)
 		}
 	}
